@@ -35,6 +35,7 @@ func Sound(r *rig.Rng) *Program {
 		case 4:
 			io(0x25, r.U8())
 		}
+		io(0x01, uint8(k)) // a serial byte per item: a logical clock for harnesses that cannot count frames
 		// burn some time: LD B,n; DEC B; JR NZ,-3
 		emit(0x06, uint8(1+r.Intn(255)), 0x05, 0x20, 0xfd)
 	}
